@@ -1,19 +1,21 @@
 #!/usr/bin/env python3
-"""tools/finish_meta.py - completes seeded/<id>/meta.json of the round-2 changes from result.json (current checks)
+"""tools/finish_meta.py - completes seeded/<id>/meta.json of the round-2 and round-3 changes from result.json (current checks)
 and result.round2-before.json (the checks as they were when the change was written)."""
 import glob
 import json
 import os
 
 here = os.path.dirname(os.path.dirname(os.path.abspath(__file__)))
-for d in sorted(glob.glob(os.path.join(here, "seeded", "*-R2?"))):
+import re
+for d in sorted(glob.glob(os.path.join(here, "seeded", "*-R[23]?"))):
+    rnd = int(re.search(r"-R(\d)", d).group(1))
     mp = os.path.join(d, "meta.json")
     meta = json.load(open(mp))
     res = json.load(open(os.path.join(d, "result.json")))
-    before_p = os.path.join(d, "result.round2-before.json")
+    before_p = os.path.join(d, "result.round%d-before.json" % rnd)
     before = json.load(open(before_p)) if os.path.exists(before_p) else {}
     meta["breaks_property"] = meta["property"]
-    meta["round"] = 2
+    meta["round"] = rnd
     meta["confirmed_by"] = {
         "tool": "tools/confirm_seeded.sh (scratch worktree of /repo under /tmp, removed afterwards)",
         "steps": ["demo test passes on the clean tree",
